@@ -1,6 +1,7 @@
 /-
   Helper lemmas about `flattenUnion`, `handleType`, `mkUnionMembers` (the model of `DUnion.__init__`).
 -/
+import J2M.Proofs.AuxGen
 import J2M.Sem
 namespace J2M.C08P
 
